@@ -12,7 +12,7 @@ func harnessC10DurableReadChain() {
 	N := vParam("N", 3)
 	R := vParam("R", 2)
 	vmDSChunked = vBool()
-	st, err := New(vdsServer("c10"), "s")
+	st, err := New(vdsServer("c10"), "s", dsOpts()...)
 	vAssert(err == nil, "store-opens")
 	n := vInt(0, N)
 	perCall := vBool()
@@ -63,7 +63,7 @@ func harnessC11DurableReplay() {
 	N := vParam("N", 3)
 	vmDSChunked = vBool()
 	vmDSStrict = vBool()
-	st, err := New(vdsServer("c11"), "s")
+	st, err := New(vdsServer("c11"), "s", dsOpts()...)
 	vAssert(err == nil, "store-opens")
 	n := vInt(0, N)
 	recs := dsFill(st, n)
